@@ -6,7 +6,7 @@
    run_readers = concurrent readers as a schedule of atomic loop iterations).
    Closed forms used in the statements (proof/C13_Salamander.v): xor_cycle k 0 p = p XOR k cycled,
    plain H psk w = the decoding of wire packet w, decoded, recv, net_item/item_ev/item_out. *)
-From Hy Require Import lib.Bytes lib.Res lib.Blake2b model.C13_Salamander proof.C13_Salamander.
+From Hy Require Import lib.Bytes lib.Res lib.Blake2b model.C13_Salamander proof.C13_Salamander model.C13_Lock proof.C13_Lock.
 From Coq Require Import ZArith.
 
 (* Transparency, for ANY hash function: a packet of 1..2040 bytes written through a wrapper whose
@@ -123,3 +123,23 @@ Theorem C13_concurrent_as_sequential : forall (H : list byte -> list byte) psk p
     read_seq H psk (repeat pl (S (length evs))) evs = Ok (map snd log).
 Proof. exact concurrent_as_sequential. Qed.
 Print Assumptions C13_concurrent_as_sequential.
+
+(* Lock discipline (model/C13_Lock.v: WriteTo under writeMutex, each ReadFrom loop iteration under
+   readMutex): for EVERY history of calls on one wrapped socket - writes of any length with any
+   outcome of the socket below (success or any error), read iterations on any incoming datagram or
+   error, in any order - started with both mutexes free, every call returns (none is Stuck), it
+   returns exactly the value of the sequential model (write_to / read_iter, so the counts and wire
+   format above apply to each), and both mutexes are free again at the end: a failed underlying
+   write or read leaves the socket usable. *)
+Theorem C13_locks_released : forall (H : list byte -> list byte) psk cs, exists rets,
+  run_calls H psk cs free = Ok (rets, free) /\ Forall2 (ret_of H psk) cs rets /\ ~ In Stuck rets.
+Proof. exact locks_released. Qed.
+Print Assumptions C13_locks_released.
+
+(* ... and the Stuck outcome is not vacuous: were writeMutex ever left held by a call that has
+   returned, every later WriteTo of the history would be stuck and the mutex would stay held. *)
+Theorem C13_leaked_write_lock_blocks : forall (H : list byte -> list byte) psk rd cs rets l,
+  run_calls H psk cs (mkL rd true) = Ok (rets, l) ->
+  wr_held l = true /\ Forall2 (fun c r => match c with CallW _ _ _ => r = Stuck | CallR _ _ => True end) cs rets.
+Proof. exact leaked_write_lock_blocks. Qed.
+Print Assumptions C13_leaked_write_lock_blocks.
